@@ -99,6 +99,7 @@ func fieldTail(t string) string {
 func init() {
 	register("C17", "Structural clause decided: for every protocol structure the serialiser and the parser agree on kinds, widths and order of the fields and on which field each value goes to (AKE messages, data message, TLV, SMP payloads with their element order and counts, DSA public/private keys, the Append*/Extract* primitives with widths 2/4/8 and length-prefixed data, MPIs through big.Int.Bytes, i.e. minimal form); every length that is written is the length of the bytes written with it; the libotr key-file writer and reader use the same list heads and parameter names, and quoted strings are read back verbatim; the SMP question flag selects the TLV type on both sides; no lossy integer narrowing of a length. Not decided: value-level equality for all inputs (needs execution); the account-name character set.",
 		func(a *An) {
+			a.serializeAllDisclosedKeys("L.disclosed-keys")
 			a.pairLayouts("L.pairs")
 			a.primitives("L.primitives")
 			a.smpOrder("L.smp-order")
